@@ -23,12 +23,26 @@ Record SR (s s' : st) : Prop := {
   sr_comp : forall y, In y (completed s) -> In y (completed s');
   sr_fc : forall y, In y (failed s) \/ In y (cancelled s) -> In y (failed s') \/ In y (cancelled s');
   sr_row : forall y, In y (failed s) \/ In y (cancelled s) -> fc_row (stat s y) = true -> fc_row (stat s' y) = true;
-  sr_ni : forall y, stat s y <> INITIALIZED -> stat s' y <> INITIALIZED }.
+  sr_ni : forall y, stat s y <> INITIALIZED -> stat s' y <> INITIALIZED;
+  sr_evs : exists l, evs s' = l ++ evs s }.
 
 Lemma SR_refl s : SR s s.
-Proof. constructor; auto. Qed.
+Proof. constructor; auto. exists []. reflexivity. Qed.
 Lemma SR_trans a b d : SR a b -> SR b d -> SR a d.
-Proof. intros [A1 A2 A3 A4] [B1 B2 B3 B4]. constructor; auto. Qed.
+Proof.
+  intros [A1 A2 A3 A4 [l1 A5]] [B1 B2 B3 B4 [l2 B5]]. constructor; auto.
+  exists (l2 ++ l1). rewrite B5, A5, app_assoc. reflexivity.
+Qed.
+
+(** a step that leaves the rows and the resolved sets alone *)
+Lemma SR_quiet s s' : (forall y, stat s' y = stat s y) -> completed s' = completed s -> failed s' = failed s ->
+  cancelled s' = cancelled s -> (exists l, evs s' = l ++ evs s) -> SR s s'.
+Proof. intros E1 E2 E3 E4 E5. constructor; auto; intros y; rewrite ?E1, ?E2, ?E3, ?E4; auto. Qed.
+Lemma X_quiet c s s' : (forall y, stat s' y = stat s y) -> completed s' = completed s -> X c s -> X c s'.
+Proof. intros E1 E2 [A B]. constructor; intros y; rewrite ?E1, ?E2; auto. Qed.
+Lemma R2_quiet A s s' : (forall y, stat s' y = stat s y) -> failed s' = failed s -> cancelled s' = cancelled s ->
+  R2 A s -> R2 A s'.
+Proof. intros E1 E2 E3 H y. rewrite E1, E2, E3. apply H. Qed.
 
 (** views of the elementary combinators *)
 Definition nrecs (s : st) : nat := length (recs s).
@@ -101,14 +115,14 @@ Lemma mfl_view l : forall s,
   nrecs (mark_failed_list l s) = nrecs s.
 Proof.
   unfold mark_failed_list. induction l as [|a l IH]; intros s; cbn [fold_left In].
-  - repeat split; try tauto. intros y [H|H]; auto. destruct H.
+  - repeat split; try tauto.
   - destruct (IH (rec_set_status a FAILED (failed_add a s))) as (A1 & A2 & A3 & A4 & A5).
     set (s1 := rec_set_status a FAILED (failed_add a s)) in *.
     assert (S1 : forall y, stat s1 y = if (y =? a) && (a <? nrecs s) then FAILED else stat s y).
     { intros y. unfold s1. autorewrite with vwdb. reflexivity. }
     assert (N1 : nrecs s1 = nrecs s) by (unfold s1; autorewrite with vwdb; reflexivity).
     split; [|split; [|split; [|split]]].
-    + intros y. rewrite A1. unfold s1. setcbn. rewrite In_sadd. tauto.
+    + intros y. rewrite A1. unfold s1. setcbn. rewrite In_sadd. intuition.
     + intros y Hy. rewrite A2 by tauto. rewrite S1. destruct (Nat.eqb_spec y a); [subst; tauto|reflexivity].
     + intros y Hy. destruct (in_dec Nat.eq_dec y l) as [Hi|Hi].
       * destruct (A3 y Hi) as [H|H]; auto. rewrite H, S1. destruct ((y =? a) && (a <? nrecs s)); auto.
@@ -127,14 +141,14 @@ Lemma mcl_view l : forall s,
   nrecs (mark_cancelled_list l s) = nrecs s.
 Proof.
   unfold mark_cancelled_list. induction l as [|a l IH]; intros s; cbn [fold_left In].
-  - repeat split; try tauto. intros y [H|H]; auto. destruct H.
+  - repeat split; try tauto.
   - destruct (IH (rec_set_status a CANCELLED (cancelled_add a s))) as (A1 & A2 & A3 & A5).
     set (s1 := rec_set_status a CANCELLED (cancelled_add a s)) in *.
     assert (S1 : forall y, stat s1 y = if (y =? a) && (a <? nrecs s) then CANCELLED else stat s y).
     { intros y. unfold s1. autorewrite with vwdb. reflexivity. }
     assert (N1 : nrecs s1 = nrecs s) by (unfold s1; autorewrite with vwdb; reflexivity).
     split; [|split; [|split]].
-    + intros y. rewrite A1. unfold s1. setcbn. rewrite In_sadd. tauto.
+    + intros y. rewrite A1. unfold s1. setcbn. rewrite In_sadd. intuition.
     + intros y Hy. rewrite A2 by tauto. rewrite S1. destruct (Nat.eqb_spec y a); [subst; tauto|reflexivity].
     + intros y Hy. destruct (in_dec Nat.eq_dec y l) as [Hi|Hi].
       * destruct (A3 y Hi) as [H|H]; auto. rewrite H, S1. destruct ((y =? a) && (a <? nrecs s)); auto.
@@ -162,43 +176,108 @@ Lemma submit_attempts_stat g x restart n : forall s,
   (stat (snd (submit_attempts g x restart n s)) x = stat s x \/
    stat (snd (submit_attempts g x restart n s)) x = PENDING \/
    stat (snd (submit_attempts g x restart n s)) x = RUNNING) /\
-  nrecs (snd (submit_attempts g x restart n s)) = nrecs s.
+  nrecs (snd (submit_attempts g x restart n s)) = nrecs s /\
+  same_sets s (snd (submit_attempts g x restart n s)) /\
+  (exists l, evs (snd (submit_attempts g x restart n s)) = l ++ evs s).
 Proof.
-  induction n as [|n IH]; intros s; [repeat split; auto|].
+  induction n as [|n IH]; intros s; [repeat split; auto; exists []; reflexivity|].
   rewrite submit_attempts_S. cbv zeta.
   set (s2 := if scheduled (attr g x)
              then if restart then emit (EGen x) s else rec_set_status x PENDING s
              else rec_set_status x RUNNING (if restart then emit (EGen x) s else rec_set_status x PENDING s)).
   assert (S2 : (forall y, y <> x -> stat s2 y = stat s y) /\
-               (stat s2 x = stat s x \/ stat s2 x = PENDING \/ stat s2 x = RUNNING) /\ nrecs s2 = nrecs s).
+               (stat s2 x = stat s x \/ stat s2 x = PENDING \/ stat s2 x = RUNNING) /\ nrecs s2 = nrecs s /\
+               same_sets s s2 /\ (exists l, evs s2 = l ++ evs s)).
   { unfold s2. destruct (scheduled (attr g x)), restart; autorewrite with vwdb;
       (split; [intros y Hy; autorewrite with vwdb; apply Nat.eqb_neq in Hy; rewrite ?Hy; reflexivity|]);
-      (split; [|reflexivity]); rewrite ?Nat.eqb_refl; cbn [andb]; destruct (x <? nrecs s); auto. }
-  clearbody s2. destruct S2 as (B1 & B2 & B3).
-  pose proof (next_sub_stat s2) as NS. destruct (next_sub s2) as [b s3]. cbn [snd] in NS.
+      (split; [rewrite ?Nat.eqb_refl; cbn [andb]; destruct (x <? nrecs s); auto|]);
+      (split; [reflexivity|]); (split; [repeat split|]);
+      first [exists []; reflexivity | exists [EGen x]; reflexivity]. }
+  clearbody s2. destruct S2 as (B1 & B2 & B3 & B4 & [l2 B5]).
+  pose proof (next_sub_stat s2) as NS. pose proof (next_sub_frame s2) as NF.
+  destruct (next_sub s2) as [b s3]. cbn [snd] in NS. destruct NF as (F1 & F2 & F3 & F4).
   destruct b.
-  - cbn [snd]. split; [|split].
+  - cbn [snd]. split; [|split; [|split; [|split]]].
     + intros y Hy. autorewrite with vwdb. rewrite (proj1 (NS y)). auto.
     + autorewrite with vwdb. rewrite (proj1 (NS x)). exact B2.
     + autorewrite with vwdb. change (nrecs (set_next_job s3 (S (next_job s3)))) with (nrecs s3).
       rewrite (proj2 (NS x)). exact B3.
-  - destruct (IH (emit (ESubmit x (if restart then Restart else Main) (scheduled (attr g x)) None) s3)) as (C1 & C2 & C3).
-    split; [|split].
+    + eapply same_sets_trans; [exact B4|]. eapply same_sets_trans; [exact F1|]. repeat split.
+    + eexists (_ :: l2). cbn [evs emit set_evs rec_push_job set_recs set_next_job]. rewrite F3, B5. reflexivity.
+  - destruct (IH (emit (ESubmit x (if restart then Restart else Main) (scheduled (attr g x)) None) s3)) as (C1 & C2 & C3 & C4 & [l4 C5]).
+    split; [|split; [|split; [|split]]].
     + intros y Hy. rewrite C1 by auto. autorewrite with vwdb. rewrite (proj1 (NS y)). auto.
     + autorewrite with vwdb in C2. rewrite (proj1 (NS x)) in C2.
       destruct C2 as [C2|[C2|C2]]; rewrite C2; auto.
     + rewrite C3. autorewrite with vwdb. rewrite (proj2 (NS x)). exact B3.
+    + eapply same_sets_trans; [exact B4|]. eapply same_sets_trans; [exact F1|]. exact C4.
+    + eexists (l4 ++ _ :: l2). rewrite C5. cbn [evs emit set_evs]. rewrite F3, B5, <- app_assoc. reflexivity.
 Qed.
 
-Section Try.
+Ltac yx y x := destruct (Nat.eq_dec y x) as [->|?Hn];
+  [rewrite ?Nat.eqb_refl|rewrite ?(proj2 (Nat.eqb_neq _ _) Hn)].
+
+Ltac fin Hd := unfold fin_of; rewrite ?Hd;
+  first [ solve [tauto] | solve [intuition (subst; auto; try congruence; try discriminate)]
+        | solve [timeout 20 sauto] ].
+
+Section Pass2.
 Variables (c : cfg) (g : graph).
+Hypothesis W : WF g.
 
-Lemma try_finished x s : Inv g s -> In x (inprog s) -> dry c = false -> X c s ->
-  X c (inprog_remove x (completed_add x (rec_set_status x FINISHED s))).
+Lemma execute_record_x A x restart s :
+  Inv g s -> x < length g -> ~ In x (completed s) -> ~ In x (failed s) -> ~ In x (cancelled s) ->
+  X c s -> R2 A s ->
+  let s' := execute_record_gen c g x restart s in
+  X c s' /\ R2 A s' /\ SR s s' /\ (restart = false -> stat s' x <> INITIALIZED).
 Proof.
-  intros I Hx Hd [A B].
-  assert (Hl := nrecs_lt g s x I (i_bound g s I x ltac:(auto))).
-  unfold fin_of in *. rewrite Hd in *.
-  constructor; intros y; vw Hl; destruct (Nat.eqb_spec y x); timeout 20 sauto.
-Qed.
-End Try.
+  intros I Hx Hc Hf Hk Xs Rs.
+  assert (Hl := nrecs_lt g s x I Hx).
+  unfold execute_record_gen.
+  set (s0 := if negb restart then emit (EGen x) s else s).
+  assert (V0 : (forall y, stat s0 y = stat s y) /\ same_sets s s0 /\ (exists l, evs s0 = l ++ evs s) /\ nrecs s0 = nrecs s).
+  { unfold s0. destruct restart; cbn [negb];
+      (split; [reflexivity|split; [repeat split|split; [|reflexivity]]]); [exists []|exists [EGen x]]; reflexivity. }
+  destruct V0 as (V1 & V2 & V3 & V4). pose proof V2 as (E1 & E2 & E3 & E4 & E5 & E6 & E7).
+  clearbody s0.
+  assert (X0 : X c s0) by (apply (X_quiet c s); auto).
+  assert (R0 : R2 A s0) by (apply (R2_quiet A s); auto).
+  assert (SR0 : SR s s0) by (apply SR_quiet; auto).
+  rewrite <- V4 in Hl. rewrite <- E1 in Hc. rewrite <- E4 in Hf. rewrite <- E5 in Hk.
+  cbv zeta.
+  match goal with |- X c ?t /\ _ => set (s' := t) end.
+  enough (G : X c s' /\ R2 A s' /\ SR s0 s' /\ (restart = false -> stat s' x <> INITIALIZED)).
+  { destruct G as (G1 & G2 & G3 & G4). repeat (split; [assumption|]). split; [eapply SR_trans; eauto|exact G4]. }
+  destruct X0 as [XA XB]. unfold R2 in *. subst s'.
+  destruct (dry c) eqn:Hd.
+  - (* dry run *)
+    unfold fin_of in *. rewrite Hd in *.
+    split; [|split; [|split]].
+    + constructor; intros y; vw Hl; yx y x; fin Hd.
+    + intros y; vw Hl; yx y x; fin Hd.
+    + constructor; try (intros y; vw Hl; yx y x; fin Hd). exists []. reflexivity.
+    + intros _. vw Hl. rewrite Nat.eqb_refl. discriminate.
+  - unfold fin_of in XB. rewrite Hd in XB.
+    pose proof (submit_attempts_stat g x restart (attempts c) s0) as (S1 & S2 & S3 & S4 & S5).
+    destruct (submit_attempts g x restart (attempts c) s0) as [ok s1]. cbn [snd] in *.
+    destruct S4 as (F1 & F2 & F3 & F4 & F5 & F6 & F7).
+    assert (Hl1 : (x <? nrecs s1) = true) by (rewrite S3; exact Hl).
+    assert (ST : forall y, (y = x /\ (stat s1 y = stat s0 y \/ stat s1 y = PENDING \/ stat s1 y = RUNNING)) \/
+                           (y <> x /\ stat s1 y = stat s0 y)).
+    { intros y. destruct (Nat.eq_dec y x) as [->|Hn]; [left|right]; auto. }
+    clear S1 S2.
+    destruct ok.
+    + destruct (scheduled (attr g x)); cbn [negb].
+      * (* scheduled: in progress *)
+        split; [|split; [|split]].
+        -- constructor; intros y; vw Hl1; rewrite ?F1; destruct (ST y) as [[-> [S|[S|S]]]|[Hn S]]; rewrite ?S; fin Hd.
+        -- intros y; vw Hl1; rewrite ?F4, ?F5; destruct (ST y) as [[-> [S|[S|S]]]|[Hn S]]; rewrite ?S; fin Hd.
+        -- constructor; try (intros y; vw Hl1; rewrite ?F1, ?F4, ?F5;
+                              destruct (ST y) as [[-> [S|[S|S]]]|[Hn S]]; rewrite ?S; fin Hd).
+           exact S5.
+        -- admit.
+      * admit.
+    + admit.
+Admitted.
+
+End Pass2.
